@@ -535,6 +535,10 @@ class _Subst(ast.NodeTransformer):
             if iname == 'methodcaller' and len(inner.args) == 1 and isinstance(inner.args[0], ast.Constant) and isinstance(inner.args[0].value, str) \
                     and inner.args[0].value.isidentifier():
                 return ast.copy_location(ast.Call(func=ast.Attribute(value=node.args[0], attr=inner.args[0].value, ctx=ast.Load()), args=[], keywords=[]), node)
+        # str.strip(x) / str.upper(x) ...  ->  x.strip() / x.upper()      (a method of a builtin type called through the type)
+        if isinstance(node.func, ast.Attribute) and isinstance(node.func.value, ast.Name) and node.func.value.id in ('str', 'list', 'dict', 'bytes') \
+                and node.args and not isinstance(node.args[0], ast.Starred) and node.func.attr not in ('join', 'fromkeys', 'maketrans', 'fromhex'):
+            return ast.copy_location(ast.Call(func=ast.Attribute(value=node.args[0], attr=node.func.attr, ctx=ast.Load()), args=node.args[1:], keywords=node.keywords), node)
         # partial(g, a, k=v)(x)  ->  g(a, x, k=v)
         if isinstance(node.func, ast.Call) and (getattr(node.func.func, 'attr', None) or getattr(node.func.func, 'id', '')) == 'partial' and node.func.args \
                 and isinstance(node.func.args[0], (ast.Name, ast.Attribute)) and not any(isinstance(a, ast.Starred) for a in node.func.args):
@@ -1005,6 +1009,41 @@ class Desugar(ast.NodeTransformer):
             node = _FormatToFString(const_locals).visit(node)       # `partial(TEMPLATE.format, a)(b)` has become `TEMPLATE.format(a, b)`
             ast.fix_missing_locations(node)
             self.loads = Counter(x.id for x in ast.walk(node) if isinstance(x, ast.Name) and isinstance(x.ctx, ast.Load))
+        # D24: opts = {'a': x, 'b': y} ; ... f(z, **opts)   (opts bound once, read once)   ->   f(z, a=x, b=y);   f(**{'a': x}) -> f(a=x)
+        dlocals = {}
+        for x in node.body:
+            if isinstance(x, ast.Assign) and len(x.targets) == 1 and isinstance(x.targets[0], ast.Name) and isinstance(x.value, ast.Dict) and x.value.keys \
+                    and all(isinstance(k, ast.Constant) and isinstance(k.value, str) and k.value.isidentifier() for k in x.value.keys) \
+                    and self.stores.get(x.targets[0].id) == 1 and self.loads.get(x.targets[0].id) == 1:
+                dlocals[x.targets[0].id] = x
+        used_d = set()
+
+        class _KW(ast.NodeTransformer):
+            def visit_Call(self_, c):
+                self_.generic_visit(c)
+                new_kw = []
+                for k in c.keywords:
+                    d = None
+                    if k.arg is None and isinstance(k.value, ast.Name) and k.value.id in dlocals:
+                        d = dlocals[k.value.id].value
+                        used_d.add(k.value.id)
+                    elif k.arg is None and isinstance(k.value, ast.Dict) and k.value.keys and all(
+                            isinstance(kk, ast.Constant) and isinstance(kk.value, str) and kk.value.isidentifier() for kk in k.value.keys):
+                        d = k.value
+                    if d is not None:
+                        new_kw.extend(ast.keyword(arg=kk.value, value=vv) for kk, vv in zip(d.keys, d.values))
+                    else:
+                        new_kw.append(k)
+                c.keywords = new_kw
+                return c
+        if dlocals or any(isinstance(x, ast.keyword) and x.arg is None and isinstance(x.value, ast.Dict) for x in ast.walk(node)):
+            node = _KW().visit(node)
+            if used_d:
+                node.body = [b for b in node.body if not (isinstance(b, ast.Assign) and len(b.targets) == 1 and isinstance(b.targets[0], ast.Name)
+                                                          and b.targets[0].id in used_d and dlocals.get(b.targets[0].id) is b)]
+            ast.fix_missing_locations(node)
+            self.loads = Counter(x.id for x in ast.walk(node) if isinstance(x, ast.Name) and isinstance(x.ctx, ast.Load))
+            self.stores = Counter(x.id for x in ast.walk(node) if isinstance(x, ast.Name) and isinstance(x.ctx, ast.Store))
         # D10d: G = (E for y in IT) ; ... (F(x) for x in G)     (G bound once, read once, as the iterable of a comprehension)   ->   read in place and fused
         glocals = {}
         for x in node.body:
@@ -1260,6 +1299,12 @@ class Desugar(ast.NodeTransformer):
                     and isinstance(e.elt, ast.Name) and e.elt.id == e.generators[0].target.id and len(e.generators[0].ifs) == 1 \
                     and isinstance(e.generators[0].ifs[0], ast.Name) and e.generators[0].ifs[0].id == e.elt.id:
                 inner = e.generators[0].iter
+            if isinstance(inner, ast.Name) and getattr(self, 'loads', None) is not None and self.loads.get(inner.id, 0) == 1 and self.stores.get(inner.id, 0) == 1:
+                # a local bound once to the display and read only here
+                defs = [b_ for b_ in body if isinstance(b_, ast.Assign) and len(b_.targets) == 1 and isinstance(b_.targets[0], ast.Name) and b_.targets[0].id == inner.id]
+                if len(defs) == 1 and isinstance(defs[0].value, (ast.Tuple, ast.List)):
+                    via_local.append(defs[0])
+                    inner = defs[0].value
             if not isinstance(inner, (ast.Tuple, ast.List)) or not (1 <= len(inner.elts) <= 12):
                 return None
 
@@ -1279,16 +1324,19 @@ class Desugar(ast.NodeTransformer):
             return parts if any(c is not None for c, _ in parts) else None
         bi = 0
         n_opt = [0]
+        via_local: List[ast.stmt] = []
         while bi < len(body):
             b0 = body[bi]
             if isinstance(b0, (ast.Return, ast.Assign, ast.Expr, ast.AugAssign)) and b0.value is not None:
                 found = None
                 for x in ast.walk(b0.value):
                     if isinstance(x, (ast.Call, ast.ListComp, ast.GeneratorExp)) and not isinstance(x, ast.Lambda):
+                        del via_local[:]
                         parts = optional_display(x)
                         if parts is not None:
                             found = (x, parts)
                             break
+                        del via_local[:]
                 if found is not None and not any(isinstance(y, (ast.Lambda, ast.GeneratorExp, ast.ListComp, ast.DictComp, ast.SetComp)) and any(z is found[0] for z in ast.walk(y))
                                                  and y is not found[0] for y in ast.walk(b0.value)):
                     x, parts = found
@@ -1311,6 +1359,12 @@ class Desugar(ast.NodeTransformer):
                         ast.fix_missing_locations(st_)
                     body[bi:bi] = pre
                     bi += len(pre)
+                    for dead in via_local:          # the display local has been consumed
+                        k_ = next((j_ for j_, b_ in enumerate(body) if b_ is dead), None)
+                        if k_ is not None:
+                            del body[k_]
+                            bi -= 1
+                    del via_local[:]
                     if getattr(self, 'stores', None) is not None:
                         self.stores[vn] = 1
                         self.loads[vn] = self.loads.get(vn, 0) + 1 + len(parts)
